@@ -79,3 +79,97 @@ package validator
 //@   ensures jsonLexeme.lexEventType == lexeme.ArrayEnd && normal ==> len(result0) == 0 && result1 && v.itemsCounter == old(v.itemsCounter)
 //@   ensures !(jsonLexeme.lexEventType == lexeme.ArrayBegin || jsonLexeme.lexEventType == lexeme.ArrayItemEnd || jsonLexeme.lexEventType == lexeme.ArrayItemBegin || jsonLexeme.lexEventType == lexeme.ArrayEnd) ==> panics
 //@   ensures panics ==> typeis(pv, errors.DocumentError)
+
+// ---- object positions (C01: required-key bookkeeping) ----
+
+//@ func (objectValidator).requiredKeysString()
+//@   props C07
+//@   trusted "diagnostic text only (range over a map, strings.Join): assumed not to panic"
+//@   nopanic
+
+// ASSUMED frame of the value dispatch (child lookup by decoded key, key
+// shortcuts, additionalProperties): it may remove keys from the required set
+// and fails only with library errors
+//@ func (*objectValidator).feedObjectValueBegin()
+//@   props C01 C03
+//@   trusted "object value dispatch (string-keyed lookups, key shortcuts, additionalProperties) is not verified; only its frame and error class are assumed"
+//@   maypanic
+//@   modifies v.requiredKeys[*]
+//@   defines normal ==> !result1
+//@   defines normal ==> (forall k string :: dom(v.requiredKeys, k) ==> old(dom(v.requiredKeys, k)))
+//@   defines panics ==> (typeis(pv, errors.DocumentError) || errWF(pv))
+
+//@ func (*objectValidator).feedObjectKeyEnd(jsonLexeme)
+//@   props C01
+//@   requires v != nil && lexWF(jsonLexeme) && jsonLexeme.end + 1 - jsonLexeme.begin <= 1000000000000
+//@   maypanic
+//@   modifies v.requiredKeys[*], v.lastFoundKeyLex
+//@   ensures panics <==> !typeis(v.node_, *schema.ObjectNode)
+//@   ensures panics ==> typeis(pv, errors.DocumentError)
+//@   ensures normal ==> len(v.requiredKeys) <= old(len(v.requiredKeys)) && len(v.requiredKeys) >= old(len(v.requiredKeys)) - 1
+//@   ensures normal ==> (forall k string :: dom(v.requiredKeys, k) ==> old(dom(v.requiredKeys, k)))
+//@   ensures normal ==> (exists s string :: spellsDecoded(s, lexBytes(jsonLexeme)) && (forall k string :: dom(v.requiredKeys, k) <==> (old(dom(v.requiredKeys, k)) && k != s)))
+
+// C01: "required-key set is emptied as keys arrive; non-empty at object end is an error"
+//@ func (*objectValidator).feed(jsonLexeme)
+//@   props C01
+//@   requires v != nil && lexWF(jsonLexeme) && jsonLexeme.end + 1 - jsonLexeme.begin <= 1000000000000
+//@   maypanic
+//@   modifies v.requiredKeys[*], v.lastFoundKeyLex
+//@   ensures jsonLexeme.lexEventType == lexeme.ObjectEnd ==> (panics <==> len(old(v.requiredKeys)) != 0)
+//@   ensures jsonLexeme.lexEventType == lexeme.ObjectEnd && normal ==> len(result0) == 0 && result1
+//@   ensures jsonLexeme.lexEventType == lexeme.ObjectBegin || jsonLexeme.lexEventType == lexeme.ObjectKeyBegin || jsonLexeme.lexEventType == lexeme.ObjectValueEnd ==> normal && len(result0) == 0 && !result1 && len(v.requiredKeys) == old(len(v.requiredKeys))
+//@   ensures jsonLexeme.lexEventType == lexeme.ObjectKeyEnd ==> (panics <==> !typeis(v.node_, *schema.ObjectNode))
+//@   ensures jsonLexeme.lexEventType == lexeme.ObjectKeyEnd && normal ==> len(result0) == 0 && !result1
+//@   ensures normal ==> (forall k string :: dom(v.requiredKeys, k) ==> old(dom(v.requiredKeys, k)))
+//@   ensures !(jsonLexeme.lexEventType == lexeme.ObjectEnd || jsonLexeme.lexEventType == lexeme.ObjectBegin || jsonLexeme.lexEventType == lexeme.ObjectKeyBegin || jsonLexeme.lexEventType == lexeme.ObjectValueEnd || jsonLexeme.lexEventType == lexeme.ObjectKeyEnd || jsonLexeme.lexEventType == lexeme.ObjectValueBegin) ==> panics
+//@   ensures panics ==> typeis(pv, errors.DocumentError)
+
+// C01: "required-key set is filled per object instance" with exactly the keys of the RequiredKeys rule
+//@ func (*objectValidator).initRequiredKeys()
+//@   props C01
+//@   requires v != nil && v.requiredKeys != nil && isNode(v.node_) && consReady(v.node_) && reqKeysReady(v.node_)
+//@   nopanic
+//@   modifies v.requiredKeys[*]
+//@   ensures forall k string :: dom(v.requiredKeys, k) <==> (old(dom(v.requiredKeys, k)) || (hasRule(v.node_, constraint.RequiredKeysConstraintType) && (exists i :: 0 <= i && i < len(reqKeys(v.node_)) && reqKeys(v.node_)[i] == k)))
+//@   loop 0 invariant forall k string :: dom(v.requiredKeys, k) <==> (old(dom(v.requiredKeys, k)) || (exists i :: 0 <= i && i <= rangeindex && reqKeys(v.node_)[i] == k))
+//@   loop 0 decreases len(reqKeys(v.node_)) - rangeindex
+
+//@ func newObjectValidator(node, parent, rootSchema)
+//@   props C01
+//@   requires isNode(node) && consReady(node) && reqKeysReady(node) && allocated(consOf(node)) && allocated(consOf(node).data)
+//@   maypanic
+//@   ensures panics <==> !(typeis(node, *schema.ObjectNode) || typeis(node, *schema.MixedNode) || typeis(node, *schema.MixedValueNode))
+//@   ensures panics ==> errWF(pv)
+//@   ensures normal ==> fresh(result) && result.node_ == node && result.parent_ == parent
+//@   ensures normal ==> (forall k string :: dom(result.requiredKeys, k) <==> (hasRule(node, constraint.RequiredKeysConstraintType) && (exists i :: 0 <= i && i < len(reqKeys(node)) && reqKeys(node)[i] == k)))
+
+// ---- C01: one validator per rule-free position, of the class of the node ----
+
+//@ func newLiteralValidator(node, parent)
+//@   props C01
+//@   maypanic
+//@   ensures panics <==> !(typeis(node, *schema.LiteralNode) || typeis(node, *schema.MixedNode) || typeis(node, *schema.MixedValueNode))
+//@   ensures normal ==> fresh(result) && result.node_ == node && result.parent_ == parent
+//@   ensures panics ==> errWF(pv)
+
+//@ func newArrayValidator(node, parent, rootSchema)
+//@   props C01
+//@   maypanic
+//@   ensures panics <==> !(typeis(node, *schema.ArrayNode) || typeis(node, *schema.MixedNode) || typeis(node, *schema.MixedValueNode))
+//@   ensures normal ==> fresh(result) && result.node_ == node && result.parent_ == parent && result.itemsCounter == 0
+//@   ensures panics ==> errWF(pv)
+
+//@ func newAnyNestedStructureValidator(node, parent)
+//@   props C01
+//@   nopanic
+//@   ensures fresh(result) && result.node_ == node && result.parent_ == parent && result.depth == 0
+
+//@ func (*validatorListConstructor).appendNodeValidators(node)
+//@   props C01
+//@   requires c != nil && isNode(node) && consReady(node) && reqKeysReady(node) && allocated(consOf(node)) && allocated(consOf(node).data)
+//@   maypanic
+//@   modifies c.list, c.list[*]
+//@   ensures normal ==> len(c.list) == old(len(c.list)) + 1 && vFor(c.list[old(len(c.list))], node, c.parent)
+//@   ensures normal ==> (forall j :: 0 <= j && j < old(len(c.list)) ==> c.list[j] == old(c.list[j]))
+//@   ensures panics ==> errWF(pv)
